@@ -833,6 +833,22 @@ template <int D>
 static void
 convnd_cases(Ctx& c)
 {
+  // the fixed witness of the Lean theorems C19_conv2d_is_trivial_fails / C19_conv3d_is_trivial_fails, replayed on the implementation:
+  // kernel [[2, 1, 3]] with outer extent(s) 0..0 and innermost range -1..1, input row [1, 2, 3, 4]
+  {
+    Arr k;
+    k.b.d = D;
+    Arr in;
+    in.b.d = D;
+    for (int q = 0; q < 3; ++q)
+      k.b.mn[q] = k.b.mx[q] = in.b.mn[q] = in.b.mx[q] = 0;
+    k.b.mn[D - 1] = -1;
+    k.b.mx[D - 1] = 1;
+    k.v = { 2, 1, 3 };
+    in.b.mx[D - 1] = 3;
+    in.v = { 1, 2, 3, 4 };
+    convnd_case<D>(c, k, in, in.b);
+  }
   const int ncases = c.thorough ? (D == 2 ? 2500 : 1200) : (D == 2 ? 300 : 160);
   for (int t = 0; t < ncases; ++t)
     {
@@ -1057,6 +1073,22 @@ dft_filter_case(Ctx& c, int mode)
 static void
 dft_filter_cases(Ctx& c)
 {
+  // the fixed witness of the Lean theorem C19_twice_alone_insufficient, replayed on the implementation (correspondence only):
+  // kernel [1,1,1,1] on 0..3 (not centred), data [1,1] on 0..1: wrap-around reaches k[3], the DFT route gives 2 at index 0
+  {
+    Arr k, in;
+    k.b.d = in.b.d = 1;
+    for (int q = 0; q < 3; ++q)
+      k.b.mn[q] = k.b.mx[q] = in.b.mn[q] = in.b.mx[q] = 0;
+    k.b.mx[0] = 3;
+    k.v = { 1, 1, 1, 1 };
+    in.b.mx[0] = 1;
+    in.v = { 1, 1 };
+    ArrayFilterUsingRealDFTWithPadding<1, float> f(mk<1>(k));
+    Array<1, float> o = mk_filled<1>(in.b, 77.F);
+    f(o, mk<1>(in));
+    c.emit("dftf 1 K " + arr_str(k) + " X " + arr_str(in) + " O " + in.b.str(), nums(flat(o)));
+  }
   const int n1 = c.thorough ? 1500 : 240, n2 = c.thorough ? 600 : 90, n3 = c.thorough ? 300 : 45;
   for (int t = 0; t < n1; ++t)
     dft_filter_case<1>(c, t % 3);
@@ -1298,6 +1330,57 @@ sci_cases(Ctx& c)
     }
 }
 
+// ---- SeparableConvolutionImageFilter constructed from kernels (index ranges symmetric about 0: the constructor's copy of the
+// coefficients into its parsing vectors is only in bounds for those)
+static void
+scic_cases(Ctx& c)
+{
+  const int ncases = c.thorough ? 200 : 40;
+  for (int t = 0; t < ncases; ++t)
+    {
+      vh::Rng& r = c.rng;
+      Arr ks[3];
+      VectorWithOffset<VectorWithOffset<float>> kv(3);
+      for (int q = 0; q < 3; ++q)
+        {
+          const int h = r.range(0, 2);
+          int mn[1] = { -h }, len[1] = { 2 * h + 1 };
+          ks[q] = rand_arr(r, 1, mn, len, -3, 3);
+          kv[q] = VectorWithOffset<float>(-h, h);
+          for (int j = -h; j <= h; ++j)
+            kv[q][j] = static_cast<float>(ks[q].v[j + h]);
+        }
+      SeparableConvolutionImageFilter<float> filt(kv);
+      int imn[3] = { 0, r.range(-4, 0), r.range(-4, 0) }, ilen[3] = { r.range(1, 5), r.range(1, 6), r.range(1, 6) };
+      const Arr in = rand_arr(r, 3, imn, ilen, -8, 8);
+      VoxelsOnCartesianGrid<float> image(to_range<3>(in.b), CartesianCoordinate3D<float>(0.F, 0.F, 0.F), CartesianCoordinate3D<float>(2.F, 3.F, 3.F));
+      {
+        Array<3, float>::full_iterator it = image.begin_all();
+        for (double e : in.v)
+          *it++ = static_cast<float>(e);
+      }
+      const bool ok = filt.apply(image) == Succeeded::yes;
+      const std::vector<float> got = flat(static_cast<const Array<3, float>&>(image));
+      c.emit("scic F 0 " + arr_str(ks[0]) + " F 0 " + arr_str(ks[1]) + " F 0 " + arr_str(ks[2]) + " X " + arr_str(in), ok ? nums(got) : std::string("err"));
+      Arr k;
+      k.b.d = 3;
+      for (int q = 0; q < 3; ++q)
+        {
+          k.b.mn[q] = ks[q].b.mn[0];
+          k.b.mx[q] = ks[q].b.mx[0];
+        }
+      k.v.resize(k.b.size());
+      int j[3];
+      k.b.first(j);
+      do
+        k.v[k.b.flat(j)] = ks[0].v[j[0] - k.b.mn[0]] * ks[1].v[j[1] - k.b.mn[1]] * ks[2].v[j[2] - k.b.mn[2]];
+      while (k.b.next(j));
+      c.check(ok && same(got, conv_spec(k, in, in.b, 0)),
+              "separable-image-filter SeparableConvolutionImageFilter(kernels) != 3-D convolution with the outer product of the kernels: " + arr_str(ks[0]) + " / " + arr_str(ks[1]) + " / "
+                  + arr_str(ks[2]) + " A " + arr_str(in));
+    }
+}
+
 // ---- Gaussian and Metz: kernels observed through the response to a unit impulse
 struct Lines
 {
@@ -1524,6 +1607,7 @@ main(int argc, char** argv)
   dft_filter_cases(c);
   separable_cases(c);
   sci_cases(c);
+  scic_cases(c);
   gauss_cases(c);
   metz_cases(c);
   std::fprintf(c.orc, "ORACLE-DONE checks=%ld fails=%ld\n", c.checks, c.fails);
